@@ -198,7 +198,7 @@ def gen_call(rng):
     elif fn in ("padleft", "padright"):
         args = [s, str(rng.choice([rng.randint(0, 14)] * 9 + [499, 500, 501, 1000]))] + ([rand_str(rng, 3, "ab0")] if rng.random() < 0.8 else [])
     elif fn == "plural":
-        args = [str(rng.choice([0, 1, 1, 2, 5, 11, 21])), "one", "many"]
+        args = [rng.choice(["0", "1", "1", "2", "5", "11", "21", "01", "001", "00", "010", "02", " 1 ", "1 "]), "one", "many"]
     else:
         args = [rand_str(rng, 8, "aB cZ").strip()]
     return fn, args
@@ -360,7 +360,12 @@ def run(run):
         if want is not None and o[1] != want:
             run.property_failure("fn-differs:%s" % fn, "%r -> %r, reference %r" % (ctexts[i], o[1], want),
                                  {"texts": [ctexts[i]]})
-        coq_cases.append("(%s, %s, %s)" % (FN_IDS[fn], clist(args, cstr, "str"), cstr(o[1])))
+        margs = args
+        if fn == "plural":
+            # the model's plural_fn takes the result string of #expr: for an integer numeral that is its canonical form
+            # (the #expr evaluator itself is tied to Coq's eval in part (a))
+            margs = [str(int(args[0]))] + args[1:]
+        coq_cases.append("(%s, %s, %s)" % (FN_IDS[fn], clist(margs, cstr, "str"), cstr(o[1])))
         idx.append(i)
     bad, cerrs = lib.coq_eval_failing(
         "c18f", ["Base.Str", "Model.ParserFns"], "fnid * list str * str", coq_cases,
